@@ -21,7 +21,8 @@ META = {
             "parsec_dtd_insert_task under several schedulers, thread counts, window/threshold settings and 1-4 "
             "processes; each task body logs what it read and wrote and TLC validates every recorded execution against "
             "the specification (SeqTrace: ordering + values on one process; SeqTraceValues: values on several).",
-    "note": "Model: exhaustive for <= 3 tasks over 2 data (quick) / 3 tasks x 2 parameters (thorough). Implementation: "
+    "note": "Model: exhaustive for 3 tasks x 1 parameter over 2 data and 3 tasks x 2 parameters over 1 datum (quick), 3 tasks x 2 "
+            "parameters over 2 data (thorough). Implementation: "
             "sampled programs of 6-14 tasks over 2-4 data, <= 3 data parameters per task; schedulers x threads x "
             "window sizes sampled. Overlaps shorter than the stamping granularity can be missed (never invented). "
             "One body function per access signature (the DTD task-class cache is keyed by function pointer). "
@@ -33,10 +34,10 @@ MODE_NUM = {"R": 1, "W": 2, "RW": 3}
 # (scheduler, threads).  A DTD writer that finds readers outstanding returns AGAIN and is re-queued (active wait);
 # the schedulers ip and llp, and ll with one thread (which warns about it itself), keep selecting that task and
 # live-lock: these configurations are probed by C04 only (finding dtd-again-livelock), not used here.
-CONFIGS_QUICK = [("lfq", 1), ("lfq", 4), ("ap", 2), ("ll", 3), ("pbq", 4)]
+CONFIGS_QUICK = [("lfq", 1), ("lfq", 4), ("ap", 2), ("ll", 3)]
 CONFIGS_ALL = [(s, t) for s in ("ap", "gd", "lfq", "lhq", "ltq", "pbq", "rnd", "spq") for t in (1, 2, 4, 8)] + \
               [("ll", 2), ("ll", 4), ("ll", 8)]
-LIVELOCK_CONFIGS = [("ip", 2), ("llp", 2), ("ll", 1)]
+LIVELOCK_CONFIGS = [("ip", 1), ("ll", 1), ("ip", 2), ("llp", 2)]
 KEY_DUP = "dtd-same-tile-several-params"
 SEQ_INVS = ("TypeOK", "ReadsSequential", "FinalSequential", "NoConflictRunning", "WriterAfterReaders", "FlushReturnsLast")
 
@@ -46,9 +47,9 @@ SEQ_INVS = ("TypeOK", "ReadsSequential", "FinalSequential", "NoConflictRunning",
 # ---------------------------------------------------------------------------------------------------------
 def model_check(ctx, d):
     """Exhaustive TLC runs of Seq.tla: the ordering guard implies sequential values / exclusion / flush."""
-    cfgs = [("m3x1", {"ND": 2, "MaxTasks": 3, "MaxAcc": 1}), ("m2x2", {"ND": 2, "MaxTasks": 2, "MaxAcc": 2})]
+    cfgs = [("m3x1", {"ND": 2, "MaxTasks": 3, "MaxAcc": 1}), ("m3x2d1", {"ND": 1, "MaxTasks": 3, "MaxAcc": 2})]
     if not ctx.quick:
-        cfgs.append(("m3x2", {"ND": 2, "MaxTasks": 3, "MaxAcc": 2}))
+        cfgs += [("m2x2", {"ND": 2, "MaxTasks": 2, "MaxAcc": 2}), ("m3x2", {"ND": 2, "MaxTasks": 3, "MaxAcc": 2})]
     for name, c in cfgs:
         consts = {"ND": c["ND"], "Ranks": {0}, "MaxTasks": c["MaxTasks"], "MaxAcc": c["MaxAcc"],
                   "Modes": {"R", "W", "RW"}, "WithFlush": True, "DupData": True}
@@ -242,8 +243,8 @@ def run(ctx):
     exe = ctx.harness("run_prog", ["harness/dtd/run_prog.c"])
     model_check(ctx, d)
     if ctx.quick:
-        progs = gen_programs(ctx, d, "a", 3, 10, 3, 50) + gen_programs(ctx, d, "b", 2, 8, 2, 30)
-        dups = gen_programs(ctx, d, "d", 2, 6, 3, 12, dup=True)
+        progs = gen_programs(ctx, d, "a", 3, 10, 3, 40) + gen_programs(ctx, d, "b", 2, 8, 2, 20)
+        dups = gen_programs(ctx, d, "d", 2, 6, 3, 8, dup=True)
         configs = CONFIGS_QUICK
     else:
         progs = gen_programs(ctx, d, "a", 3, 12, 3, 500) + gen_programs(ctx, d, "b", 2, 8, 2, 300) + \
@@ -273,9 +274,9 @@ def run(ctx):
                   "one-process DTD execution is not a behaviour of Seq.tla (values / ordering)", key=dupkey)
     # ---- several processes: values only ------------------------------------------------------------------------------
     multi = []
-    mp = (progs[:30] + dups[:6]) if ctx.quick else (progs[:400] + dups[:60])
+    mp = (progs[:20] + dups[:4]) if ctx.quick else (progs[:400] + dups[:60])
     for nr in ([2, 3] if ctx.quick else [2, 3, 4]):
-        s, t = configs[nr % len(configs)]
+        s, t = [c for c in configs if c[0] != "ll"][nr % 3]      # ll ping-pongs a re-queued writer between two threads
         multi += run_batch(ctx, exe, lines_for(mp, [(2048, 2048), (2, 1)], sp=(20, 100)), "m%d" % nr,
                            threads=max(2, t), sched=s, nranks=nr, timeout=900, max_restarts=len(dups),
                            env={"VERIF_ALARM": "30"})
